@@ -34,7 +34,7 @@ BaseCfg ==
    timetype |-> TRUE, durationtype |-> TRUE, durationcustom |-> "", customtypes |-> <<>>, suffixes |-> <<>>,
    channel |-> <<>>, alts |-> <<>>, fault |-> ""]
 
-Alt(name, clause, channel, perm, msgs) == [name |-> name, clause |-> clause, channel |-> channel, perm |-> perm, msgs |-> msgs, emptycli |-> FALSE, yamlstyle |-> "", boolstyle |-> "", cfgfile |-> ""]
+Alt(name, clause, channel, perm, msgs) == [name |-> name, clause |-> clause, channel |-> channel, perm |-> perm, msgs |-> msgs, emptycli |-> FALSE, yamlstyle |-> "", boolstyle |-> "", cfgfile |-> "", cligap |-> 0]
 
 \* A shape: one root type of one plugin run.  run names the (d, cfg) pair (shapes of the same run share the
 \* generated package); group / role / gchecks tie runs together for relational clauses evaluated by the
@@ -208,7 +208,13 @@ FlagShapes == <<
         [BaseCfg EXCEPT !.required = <<"Root.Str", "Root.When", "Root.Sub">>, !.computed = <<"Root.Num", "Root.Items", "Leaf.Str">>,
                         !.sensitive = <<"Root.Sub.Str", "Root.Num">>, !.usfu = TRUE,
                         !.validators = <<[k |-> "Root.Str", v |-> <<"1">>], [k |-> "Root.Items", v |-> <<"2">>]>>,
-                        !.planmodifiers = <<[k |-> "Root.When", v |-> <<"1">>]>>]) >>
+                        !.planmodifiers = <<[k |-> "Root.When", v |-> <<"1">>]>>]),
+  \* computed scalars in messages small enough for the full plan product: a KNOWN ZERO planned for a computed attribute
+  \* (configured explicitly) is a known value like any other
+  Shape("f.computed.a", Desc(<<Msg("Root", <<Fld("Str", 1, "string"), Fld("Num", 2, "int64")>>, <<>>)>>),
+        [BaseCfg EXCEPT !.computed = <<"Root.Str", "Root.Num">>, !.usfu = TRUE]),
+  Shape("f.computed.b", Desc(<<Msg("Leaf", <<Fld("Flag", 1, "bool"), Fld("Flt", 2, "double")>>, <<>>), Msg("Root", <<MsgF("Sub", 1, "Leaf")>>, <<>>)>>),
+        [BaseCfg EXCEPT !.computed = <<"Leaf.Flag", "Root.Sub.Flt">>]) >>
 
 \* schema_types: the attribute type replaced for a string (by path) and for 64-bit integers (by Message.field, at the
 \* root and nested); the converters treat the field like any other scalar.  (Overrides of repeated fields and of
